@@ -120,6 +120,23 @@ def judge_words(fa, ref, n):
     except Exception as e:
         core.report(PROP, "get_accepted_words", "exception:" + type(e).__name__, {"n": n}, tags)
         return
+    if n in (2, 3) and len(exp) <= 60:
+        # the yielded lists belong to the caller: edited while the enumeration goes on, the rest must not change
+
+        try:
+            seen2 = []
+            with core.step_budget(budget):
+                for w in fa.get_accepted_words(n):
+                    seen2.append(tuple(getattr(s, "value", s) for s in w))
+                    w.append("<edited by the caller>")
+            core.LOG.count("C04.edited_while_enumerating")
+            if collections.Counter(seen2) != collections.Counter(exp):
+                core.report(PROP, "get_accepted_words", "yielded-word-is-live",
+                            {"n": n, "got": [list(map(repr, x)) for x in seen2[:6]]}, tags)
+        except (core.StepBudgetExceeded, core.CaseTimeout):
+            raise
+        except Exception as e:      # noqa
+            core.report(PROP, "get_accepted_words", "exception-after-caller-edit:" + type(e).__name__, {"n": n}, tags)
     bad = [w for w in got if not (isinstance(w, list) and all(isinstance(s, Symbol) for s in w))]
     if bad:
         core.report(PROP, "get_accepted_words", "not-a-list-of-symbols", {"n": n, "word": repr(bad[0])}, tags)
